@@ -51,6 +51,10 @@ func enumC13(t *testing.T, tier string) []string {
 	for k := 1; k <= maxW+2; k++ {
 		vs = append(vs, "w"+strconv.Itoa(k))
 	}
+	// the real SHIP layer as reader, sending direction stalled until the write deadline
+	for i := 0; i < 4; i++ {
+		vs = append(vs, "ship-pair")
+	}
 	// one direction only: the k-th and every later write fails, reads keep working
 	for k := 1; k <= maxW+2; k++ {
 		vs = append(vs, "wo"+strconv.Itoa(k))
@@ -59,6 +63,10 @@ func enumC13(t *testing.T, tier string) []string {
 }
 
 func setupC13(x *Ctx) {
+	if x.Spec.Variant == "ship-pair" {
+		c12ShipPair(x)
+		return
+	}
 	variant := x.Spec.Variant
 	if variant == "" {
 		variant = "none"
